@@ -213,6 +213,25 @@ PROPS["C03"] = {
     "level_note": "Trusted: Lean kernel, synctest, harness. The purge loop's original panic (D15) is repaired; its absence is exercised, the model's purge is the repaired filter.",
     "technique": "Lean 4 proof (inductive invariant over all interleavings) + virtual-time scenario correspondence",
 }
+PROPS["C12"] = {
+    "lean": ["SioVerif.Props.C12"],
+    "components": ["timed:TestMiddleware"],
+    "facts": [],
+    "rule": "real server and clients on the in-memory network: every chain of 0..3 (thorough 0..5) namespace middlewares over the verdicts {accept, error, string, structured "
+            "data}, each middleware slow and joining a room on the candidate socket before its verdict, default and custom namespace, 1..8 clients connecting concurrently, "
+            "polling and websocket; observed: per-candidate invocation order, client connect / connect_error payload, namespace socket list, adapter rooms of the candidate, "
+            "connection handler counts. Event middlewares: 8 accept/reject chains x 5 handler signatures (no args, string, int, string+int, int+ack). Non-trivial = every chain; "
+            "distinct by description.",
+    "trusted_base": EXT + ["go1.26.8 testing/synctest"],
+    "assumptions": ["recovered sessions skip the chain unless UseMiddlewares is set (documented configuration; explicit hypothesis of admission_gated)"],
+    "level_text": "Lean 4 theorems over the admission decision (Namespace.add / runMiddlewares / doConnect) and the event-middleware gate, for every chain: connected (listed, own "
+                  "room, CONNECT, connection handlers) implies every middleware accepted; when all accept they are called in registration order before anything else; the first "
+                  "rejection stops the chain — later middlewares are not called, the rooms are left, CONNECT_ERROR carries that rejection and none of the admission effects "
+                  "happens; an event reaches its handler iff every event middleware accepted, and they are called in order up to the first rejection. The real server's "
+                  "observable effects for every generated chain equal the model's.",
+    "level_note": "Trusted: Lean kernel, harness. Middlewares are user code run between model steps; what else may happen meanwhile (the connection ending) belongs to C06.",
+    "technique": "Lean 4 proof (induction over chains) + scenario correspondence on the real server",
+}
 
 NOT_APPLICABLE = [
 ]
